@@ -592,6 +592,14 @@ impl World for C20 {
                     out.push(with(Kind::Json { write: write.clone(), read: read.clone(), doc: Doc::Serialized }));
                 }
             }
+            Kind::Enum { style, via } => {
+                if *via != 0 && *style != 2 {
+                    out.push(with(Kind::Enum { style: *style, via: 0 }));
+                }
+                if *via == 2 {
+                    out.push(with(Kind::Enum { style: 2, via: 0 }));
+                }
+            }
             Kind::RonOptional { style, missing } => {
                 if *style != 0 {
                     out.push(with(Kind::RonOptional { style: 0, missing: *missing }));
